@@ -51,7 +51,7 @@ def main(chk):
     rng = random.Random(chk.seed + 11)
     meshes_pt = ['T4', 'T5'] if quick else ['T4', 'T5', 'T6']
     chk.bounds = {'pressure/tension meshes': meshes_pt, 'angle regularisation': 'every face of T4 (one face at a time)' if quick else 'every face of T4 and T5',
-                  'bending': 'one hinge at a time (edge set reduced to that hinge by the harness), every hinge of T4' + ('' if quick else ' and T6'),
+                  'bending': 'one hinge at a time (edge set reduced to that hinge by the harness), hinges of T4 in the canonical hinge frame (hinge on the x axis, first wing in the xy-plane) with a free translation; general orientation of the hinge is outside this run',
                   'parameters': 'all symbolic reals; two face types assigned alternately',
                   'outside': 'rounding; meshes with more than 6 nodes (the force laws are per face / per hinge); rotation covariance is checked in the thorough tier only; '
                              'the value of the bending / regularisation gradients (only their momentum balance is decided)'}
@@ -79,11 +79,11 @@ def main(chk):
     chk.functions |= sc.functions_called
 
     z = SV.Z3Ctx()
-    z.positive_vars = ()
+    z.positive_vars = ('hL', 'hb')
     sess = api.Session(ir, mode='real')
     P = [S.var(n) for n in PARAMS]
     tasks = []
-    tmo = 60000 if quick else 600000
+    tmo = 20000 if quick else 300000
     def add(name, pc, claim, core=True, info=None):
         tasks.append((name, list(pc), claim, tmo, core, info))
 
@@ -173,13 +173,22 @@ def main(chk):
             if not active:
                 chk.fail_closed.append('%s face %d: no path applies a regularisation force (vacuity)' % (name, fi))
 
-    # ---- bending, one hinge at a time ----
-    for name in (['T4'] if quick else ['T4', 'T6']):
-        m = M.CATALOGUE[name]; nn = len(m['pts']); X = M.sym_coords(m)
+    # ---- bending, one hinge at a time, canonical hinge frame with free translation ----
+    # hinge nodes i,j at t and t+(L,0,0); first opposite node at t+(a,b,0) with L,b>0; second opposite node free.
+    for name in ['T4']:
+        m = M.CATALOGUE[name]; nn = len(m['pts'])
         edges = sorted(M.undirected_edges(m['faces']))
         if quick: edges = edges[:3]
+        t = [S.var('ht0'), S.var('ht1'), S.var('ht2')]
+        hL, ha, hb, hc, hd, he = [S.var(v) for v in ('hL', 'ha', 'hb', 'hc', 'hd', 'he')]
         for e in edges:
-            paths = explore(m, 2, X, edge=e, max_paths=64)
+            others = [v for v in range(nn) if v not in e]
+            X = [None] * nn
+            X[e[0]] = list(t)
+            X[e[1]] = S.vadd(t, [hL, S.ZERO, S.ZERO])
+            X[others[0]] = S.vadd(t, [ha, hb, S.ZERO])
+            X[others[1]] = S.vadd(t, [hc, hd, he])
+            paths = explore(m, 2, X, edge=e, extra=[S.cmp('gt', hL, S.ZERO), S.cmp('gt', hb, S.ZERO)], max_paths=64)
             active = 0
             for (tr, pc, r) in paths:
                 F, _ = forces_of(r, nn)
@@ -187,7 +196,8 @@ def main(chk):
                 nz = any(isinstance(c, S.Node) for f in F for c in f)
                 if not nz: continue
                 active += 1
-                momentum_obligations('%s/bending hinge %d-%d/path %s' % (name, e[0], e[1], key or '-'), X, pc, F, False, {'mesh': name, 'term': 2, 'edge': e})
+                momentum_obligations('%s/bending hinge %d-%d (canonical frame)/path %s' % (name, e[0], e[1], key or '-'), X, pc, F, True,
+                                     {'mesh': name, 'term': 2, 'edge': e, 'frame': [e[0], e[1], others[0], others[1]]})
             if not active:
                 chk.fail_closed.append('%s hinge %r: no path applies a bending force (vacuity)' % (name, e))
 
@@ -226,6 +236,12 @@ def replay(native, info, model, nm):
     m = M.CATALOGUE[info['mesh']]
     nn = len(m['pts'])
     coords = [float(Fraction(model.get('x%d_%d' % (i, k), 0))) for i in range(nn) for k in range(3)]
+    if 'frame' in info:
+        g = lambda v: float(Fraction(model.get(v, 0)))
+        i_, j_, k_, l_ = info['frame']
+        t = [g('ht0'), g('ht1'), g('ht2')]
+        pts = {i_: t, j_: [t[0] + g('hL'), t[1], t[2]], k_: [t[0] + g('ha'), t[1] + g('hb'), t[2]], l_: [t[0] + g('hc'), t[1] + g('hd'), t[2] + g('he')]}
+        coords = [c for v in range(nn) for c in pts[v]]
     params = [float(Fraction(model.get(p, 1))) for p in PARAMS]
     params[5] = 1e9 if 'max_pressure' not in model else params[5]
     iin = iin_for(m, info['term'], info.get('face', 0), info.get('edge', (0, 0)))
